@@ -307,6 +307,15 @@ def run(tier='quick'):
                         'function contains a throw', floor=150)
     U8 = chk.rule('U8', 'id(), copy construction, assignment and destruction of track / crate / database reach '
                         'no SQL statement; is_valid() issues a single counting / existence query', floor=10)
+    U4 = chk.rule('U4', 'no encoder writes past the buffer it allocated: the number of bytes written, as a linear form in '
+                        'container sizes and label lengths, equals the size allocated (rule S3 of C03, decided here too)',
+                  floor=11)
+    from . import c03 as _c03
+    from .. import codec as _codec
+    _ex = _codec.Extractor(prog)
+    for _name, _ge, _gd in _codec.all_grammars(prog):
+        if not _ge.unknown:
+            _c03.extent(prog, _ex, chk, U4, _name, _ge)
     U10 = chk.rule('U10', 'no null pointer reaches memcpy / memmove: a pointer taken from data() of a vector or string '
                           'is passed only where the container is known to be non-empty (a null pointer is undefined '
                           'behaviour there even for length 0)', floor=2)
